@@ -442,7 +442,7 @@ class StoreWorld(WorldBase):
     def gen_derive(self, ch, buses, its):
         h = self._pick_bus(ch, buses)
         labs = self.ents[h].model['labels']
-        how = ch.choice(['drop_loc', 'drop_iloc', 'reindex', 'sort_index', 'sort_index_desc', 'rename', 'head', 'tail', 'copy_sel'])
+        how = ch.choice(['drop_loc', 'drop_iloc', 'reindex', 'sort_index', 'sort_index_desc', 'rename', 'head', 'tail', 'copy_sel', 'sort_values'])
         op = {'op': 'derive', 'h': h, 'how': how, 'out': self.next_h}
         if not labs:
             return self.gen_status(ch, buses, its)
@@ -1055,6 +1055,14 @@ class StoreWorld(WorldBase):
             new = list(labs)
             fn = lambda: bus[:]
         site = f'Bus.{how}'
+        if how == 'sort_values':
+            # sorting by a value derived from each Frame reads every Frame (observing max_persist), then derives
+            specs = {l: self.expected_frame(e, l) for l in labs}
+
+            def keyfn(series):
+                return series.iter_element().apply(lambda f: (len(f.index), str(f.name)))
+            new = sorted(labs, key=lambda l: (len(specs[l]['index']), l))
+            return self._sel(e, op, site, new, lambda b: b.sort_values(key=keyfn))
         if how in ('head', 'tail', 'copy_sel'):
             # these select (and load) frames: same path and oracles as any other selection
             if not new:
